@@ -9,6 +9,7 @@
   then about the code's own configuration.
 -/
 import PsutilModel.Proofs.C12Front
+import PsutilModel.Proofs.C12AsFound
 import PsutilModel.Model.C12Gen
 namespace Psutil.C12
 open Spec
@@ -329,5 +330,19 @@ theorem C12_text_needs_raw_newlines :
     ∧ environ { good with textRaw := false } w = .ok [([88], [49, 10, 50])]
     ∧ Spec.environ w = some (.ok [([88], [49, 13, 10, 50])]) := by
   decide
+
+/-- **C12_newline_defect_region.** The universal-newlines defect is confined to files that
+    contain a carriage return: without one, the code as found reads the same bytes. -/
+theorem C12_newline_defect_region (raw : Bytes) (h : 13 ∉ raw) :
+    textRead { good with textRaw := false } raw = textRead good raw := by
+  simp [textRead, good, nlTranslate_noCR raw h]
+
+/-- **C12_name_defect_region.** The code-point defect of `name()` is confined to names with
+    non-ASCII bytes: on ASCII names and basenames both tests agree with the byte tests. -/
+theorem C12_name_defect_region (n ext : Bytes) (hn : Ascii n) (he : Ascii ext) :
+    nameLen { good with nameTestOnBytes := false } n = nameLen good n
+    ∧ namePrefix { good with nameTestOnBytes := false } n ext = namePrefix good n ext := by
+  simp [nameLen, namePrefix, good, chars_ascii n hn, chars_ascii ext he,
+    isPrefixOf_map_singleton, startsWith]
 
 end Psutil.C12
